@@ -34,6 +34,9 @@ def instances(tier, seed):
     for kind, ar in KINDS:
         add(f"terms:CH->full:M1:{kind}", pattern='CH->full', N=4, M=1, s_rows=allrows, terms={kind: 2 if ar == 2 else 1}, cost=30)
     add("terms:CH->CF:M2:bondx1", pattern='CH->CF', N=5, M=2, s_rows={'bond': 2}, terms={'bond': 1}, cost=60)
+    # replace_all: nothing is retained, every match gets a full copy of the pattern (atoms and terms)
+    add("terms:CH->CF:M2:replace_all:bondx1", pattern='CH->CF', N=4, M=2, s_rows={'bond': 2}, terms={'bond': 1}, replace_all=True, cost=60)
+    add("terms:CH->full:M2:replace_all:no-structure-tables", pattern='CH->full', N=4, M=2, s_rows={}, replace_all=True, cost=20)
     add("terms:CH->CF-reversed-bond:M1:bondx2", pattern='CH->CF-reversed-bond', N=4, M=1, s_rows={'bond': 2}, terms={'bond': 2}, cost=20)
     add("terms:CHH->CHH:M1:bondx2", pattern='CHH->CHH', N=4, M=1, s_rows={'bond': 2, 'angle': 2}, terms={'bond': 2}, cost=30)
     add("terms:CHH->CHH:M1:anglex1", pattern='CHH->CHH', N=4, M=1, s_rows={'bond': 2, 'angle': 2}, terms={'angle': 1}, cost=30)
